@@ -1243,6 +1243,33 @@ func scaleHistory(g *tr.G, n int, drain int, left int) {
 	b.emit(g, "history")
 }
 
+// scaleSweep: every count in lo..hi, one after the other in one line (sizes 2v, the limit twice the largest
+// count): n entries; one Put whose value fills the limit exactly and so has exactly n victims; Remove of it; n
+// entries again, a Get of the oldest, Clear of exactly n+0 entries; Len and Size in between.  A path taken at
+// one count only (a batch of 64, a table of 100 or 128 entries) is walked through here.
+func scaleSweep(g *tr.G, lo, hi int) {
+	b := newBuilder(g.R, int64(2*hi+2), "b1")
+	one := vseq{1, 0, 1}
+	for n := lo; n <= hi; n++ {
+		k := b.freshKeys(n + 1)
+		if n > 0 {
+			b.add(macro{kind: 'p', ks: b.seq('a', k, n, n), vs: one})
+		}
+		b.add(macro{kind: 'p', ks: elist([]int{k + n}), vs: vseq{hi + 1, 0, 1}}) // n victims in one call
+		b.add(macro{kind: 'r', ks: elist([]int{k + n})})
+		b.add(macro{kind: 'l'})
+		if n > 0 {
+			k = b.freshKeys(n)
+			b.add(macro{kind: 'p', ks: b.seq('a', k, n, n), vs: one})
+			b.add(macro{kind: 'g', ks: elist([]int{k})})
+		}
+		b.add(macro{kind: 'c'})
+		b.add(macro{kind: 's'})
+	}
+	b.tags["scale-sweep-every-count"] = true
+	b.emit(g, "sweep")
+}
+
 // genHistoryLines: the capacity-history class at 1024 entries (all five ways to drain), at 1500 (by Remove and
 // by Clear or eviction), at 1024-1 and 1024+1 (one way each, which one turns with the seed; the thorough tier
 // takes every pair, and 2048-1..2048+1), and at a handful of smaller peaks anywhere in 2..600.
@@ -1270,6 +1297,14 @@ func genHistoryLines(g *tr.G) {
 	}
 	for i := 0; i < g.Scale(8, 120); i++ {
 		scaleHistory(g, r.Range(2, 600), r.Intn(5), tr.Pick(r, []int{0, 0, 0, 1, 2}))
+	}
+	// every count 0..130 (thorough: 0..600), and a few counts anywhere up to 600
+	for lo := 0; lo <= g.Scale(130, 600); lo += 10 {
+		scaleSweep(g, lo, lo+9)
+	}
+	for i := 0; i < g.Scale(8, 0); i++ {
+		n := r.Range(131, 600)
+		scaleSweep(g, n, n)
 	}
 }
 
